@@ -273,6 +273,13 @@ structure CachePolicy where
   fn : Key → Nat
   keyEq : Key → Key → Bool       -- the comparison performed on reuse
   keyStored : Key → Key          -- what is recorded next to the object
+  keep : Key → Key → Bool := fun _ _ => false
+                                 -- storing under the 2nd key keeps a slot stored under the 1st (the tree
+                                 -- wrappers keep one slot per `coordinates` kind under one system/metric)
+  guard : Key → Nat := fun _ => 0
+                                 -- the bookkeeping handed back with the object (`_n_elements` of the
+                                 -- requested kind: what `query(k=…)` accepts)
+  staleGuard : Bool := false     -- seeded C08e: bookkeeping refreshed only when a slot is BUILT
 
 structure Model where
   table : (Var → Bool) → Table
@@ -284,7 +291,8 @@ structure Grid where
   sig : List Var
   sid : Nat
   st : Store
-  caches : CacheId → Option (Key × Term) := fun _ => none
+  caches : CacheId → List (Key × Term) := fun _ => []
+  guards : CacheId → Option Term := fun _ => none   -- the wrapper's `_n_elements` cell
 
 def Grid.sigF (g : Grid) : Var → Bool := fun v => g.sig.contains v
 
@@ -334,6 +342,12 @@ def chunkStore (st : Store) : Store := fun v =>
 def anyChunked (st : Store) (vs : List Var) : Bool :=
   vs.any (fun v => match st v with | some e => e.chunked | none => false)
 
+/-- the object handed back by a cached method together with the bookkeeping that travels with it -/
+def handback (t gd : Term) : Term := .ap (.ap (.fn 1) t) gd
+
+/-- the bookkeeping of a request: a function of the request and of the source only -/
+def guardTerm (P : CachePolicy) (sid : Nat) (k : Key) : Term := .ap (.fn (P.guard k)) (.src sid .faceNode)
+
 /-- one operation on one grid (with the module globals threaded through) -/
 def stepGrid (M : Model) (g : Grid) (gl : Globals) : Op → Grid × Globals × Res
   | .get v =>
@@ -352,14 +366,21 @@ def stepGrid (M : Model) (g : Grid) (gl : Globals) : Op → Grid × Globals × R
   | .cached c k force store =>
     let P := M.cache c
     let T := M.table g.sigF
-    match (if force then none else (g.caches c).filter (fun e => P.keyEq e.1 k)) with
-    | some e => (g, gl, .val e.2)
+    let gd := guardTerm P g.sid k
+    match (if force then none else (g.caches c).find? (fun e => P.keyEq e.1 k)) with
+    | some e =>
+      -- the slot exists: the wrapper is switched to it and handed back
+      if P.staleGuard then (g, gl, .val (handback e.2 ((g.guards c).getD .bad)))
+      else ({ g with guards := fun c' => if c' = c then some gd else g.guards c' }, gl, .val (handback e.2 gd))
     | none =>
       let r := getMany T FUEL (P.reads k) (g.st, gl)
       let t := mkApp (P.fn k) r.2
-      let cs := if store then (fun c' => if c' = c then some (P.keyStored k, t) else g.caches c')
-                else g.caches
-      ({ g with st := r.1.1, caches := cs }, r.1.2, .val t)
+      let cs := if store then
+          (fun c' => if c' = c then (P.keyStored k, t) :: (g.caches c).filter (fun e => P.keep e.1 k)
+                     else g.caches c')
+        else g.caches
+      ({ g with st := r.1.1, caches := cs, guards := fun c' => if c' = c then some gd else g.guards c' },
+       r.1.2, .val (handback t gd))
   | .export_ => (g, gl, .vars (exportOf g.st))
   | .inventory => (g, gl, .names ((exportOf g.st).map Prod.fst))
   | .chunk => ({ g with st := chunkStore g.st }, gl, .unit)
@@ -427,6 +448,7 @@ structure Flags where
   treeKey : Bool := false       -- tree getters compare `coordinates` only
   lineKey : Bool := false       -- `to_linecollection` never records the projection
   rawNodeLon : Bool := false    -- derived `node_lon` left in [0, 360) until some other getter wraps
+  staleCount : Bool := false    -- (seeded C08e) the tree wrappers refresh `_n_elements` only when a slot is built
   deriving DecidableEq, Repr
 
 open Var in
@@ -555,9 +577,13 @@ def keyCode (k : Key) : Nat := k.foldl (fun a x => a * 16 + x + 1) 0
 open Var in
 def uxCache (fl : Flags) : CacheId → CachePolicy
   | .ball => { reads := treeReads, fn := fun k => F.cacheBase + keyCode k,
-               keyEq := fun a b => if fl.treeKey then a.head? == b.head? else a == b, keyStored := id }
+               keyEq := fun a b => if fl.treeKey then a.head? == b.head? else a == b, keyStored := id,
+               keep := fun a b => a.drop 1 == b.drop 1, guard := fun k => 2000 + k.headD 0,
+               staleGuard := fl.staleCount }
   | .kd => { reads := treeReads, fn := fun k => F.cacheBase + 100000 + keyCode k,
-             keyEq := fun a b => if fl.treeKey then a.head? == b.head? else a == b, keyStored := id }
+             keyEq := fun a b => if fl.treeKey then a.head? == b.head? else a == b, keyStored := id,
+             keep := fun a b => a.drop 1 == b.drop 1, guard := fun k => 2000 + k.headD 0,
+             staleGuard := fl.staleCount }
   | .gdf => { reads := fun _ => [nodeLL, faceNode, nPer], fn := fun k => F.cacheBase + 200000 + keyCode k,
               keyEq := fun a b => a == b, keyStored := id }
   | .poly => { reads := fun _ => [nodeLL, faceNode, nPer], fn := fun k => F.cacheBase + 300000 + keyCode k,
